@@ -72,6 +72,19 @@ def gen_version(r, ver, rich):
               "class Eq:", "    ev = %s" % ev(),
               "eqd = {'e': %s, 'k': %s}" % (ev(), ev()),
               "eqi = Eq()", "eqi.val = %s" % ev()]
+    # multi-base classes with same-module bases: the base list is re-ordered, gains and loses bases
+    lines += ["class Engine:", "    def power(self): return ('Engine.power', %d)" % ver,
+              "class Wheels:", "    def roll(self): return ('Wheels.roll', %d)" % ver,
+              "class Cargo:", "    def load(self): return ('Cargo.load', %d)" % ver]
+    for n in ("Engine", "Wheels", "Cargo"):
+        desc[n] = ("class", None, {}, None)
+    for n in ("Car", "Truck"):
+        bl = r.sample(["Engine", "Wheels", "Cargo"], r.choice([1, 2, 2, 3]))
+        lines += ["class %s(%s):" % (n, ", ".join(bl)), "    def name(self): return ('%s', %d)" % (n, ver)]
+        desc[n] = ("class", tuple(bl), {"name": "method"}, None)
+    lines += ["car1 = Car()", "truck1 = Truck()"]
+    desc["car1"] = ("inst", "Car")
+    desc["truck1"] = ("inst", "Truck")
     for n in ("eq1", "eq2"):
         desc[n] = ("data",)
     desc["Eq"] = ("class", None, {"ev": "data"}, None)
@@ -286,6 +299,13 @@ def gen_cases(ctx, n):
             for d in (od, nd):
                 for k in ("mk", "mk2", "deco"):
                     d[k] = ("func", k, None)
+        if i % 12 == 5:
+            # everything deleted (or nothing there before): empty, whitespace-only, comment-only, docstring-only
+            blank = r.choice(["", "   \n\n", "# only a comment\n", '"""only a docstring"""\n', "\n"])
+            if r.random() < .7:
+                nsrc, nd = blank, {}
+            else:
+                osrc, od = blank, {}
         split = []
         if i % 15 == 9:
             # order stream: one old object bound to two names is paired with two different new functions;
@@ -475,6 +495,13 @@ def _members(c, inst):
             out[k + '@class'] = _call(getattr(c, k))
     return out
 _MODNAME = [None]
+def _ident(cls):
+    """a class of the module under reload must BE the module's current attribute of that name"""
+    import sys
+    if cls.__module__ != _MODNAME[0]:
+        return cls.__name__
+    cur = vars(sys.modules[_MODNAME[0]]).get(cls.__name__)
+    return cls.__name__ if cur is cls else cls.__name__ + ' (NOT the class the module binds)'
 def obs_val(v, depth=0):
     owner = v.__module__ if isinstance(v, (type, types.FunctionType)) else type(v).__module__
     if _MODNAME[0] is not None and owner != _MODNAME[0] and not isinstance(v, (dict, list, tuple, types.MethodType)):
@@ -488,7 +515,8 @@ def obs_val(v, depth=0):
     if isinstance(v, type):
         try: inst = v()
         except Exception: inst = None
-        return ['class', v.__name__, [b.__name__ for b in v.__bases__], repr(vars(v).get('__slots__')), v.__doc__, _members(v, inst)]
+        return ['class', v.__name__, [_ident(b) for b in v.__bases__], [_ident(b) for b in v.__mro__],
+                repr(vars(v).get('__slots__')), v.__doc__, _members(v, inst)]
     if isinstance(v, dict) and depth < 3:
         return ['dict', sorted((k, obs_val(x, depth + 1)) for k, x in v.items())]
     if isinstance(v, (list, tuple)) and depth < 3:
@@ -496,7 +524,7 @@ def obs_val(v, depth=0):
     if type(v).__module__ not in ('builtins',) and not isinstance(v, types.ModuleType):
         d = getattr(v, '__dict__', None)
         sl = [(k, repr(getattr(v, k))) for k in getattr(v, '__slots__', ()) if hasattr(v, k)]
-        return ['inst', type(v).__name__, sorted((k, type(x).__name__, repr(x)) for k, x in d.items()) if isinstance(d, dict) else None, sl, _members(type(v), v)]
+        return ['inst', _ident(type(v)), [_ident(b) for b in type(v).__mro__], sorted((k, type(x).__name__, repr(x)) for k, x in d.items()) if isinstance(d, dict) else None, sl, _members(type(v), v)]
     return ['data', type(v).__name__, repr(v)]
 # module attributes set by the import system / by xreload itself, not by the source
 LOADER_DUNDERS = ('__builtins__', '__cached__', '__file__', '__loader__', '__name__', '__package__', '__spec__',
@@ -750,8 +778,8 @@ def _impl_case(c, LP):
             else:
                 ident[n] = "kept" if cur[n] is captured[n] else "replaced"
         out["identity"] = ident
-        out["repointed"] = sorted(n for n, v in cur.items() if isinstance(v, type) and captured.get(n) is v and
-                                  any(getattr(b, "__module__", None) == name and cur.get(b.__name__) is not b for b in v.__bases__))
+        out["repointed"] = sorted([n, b.__name__] for n, v in cur.items() if isinstance(v, type) and captured.get(n) is v
+                                  for b in v.__bases__ if getattr(b, "__module__", None) == name and cur.get(b.__name__) is not b)
         obs_ns["_MODNAME"][0] = name
         out["via_old_refs"] = {n: obs_ns["obs_val"](v) for n, v in captured.items()
                                if n not in obs_ns["LOADER_DUNDERS"] and ident.get(n) == "kept"}
@@ -927,7 +955,20 @@ def is_stale_function_cell(name, case):
 # ---------------------------------------------------------------------------------------------
 # oracle
 
+def is_gained_base_stale(cls, base, case):
+    """C16-g: the class keeps its identity and GAINS a base class of the same module (not among its bases before):
+    that base has no old counterpart in the class's old __bases__, so the mapping of the C16-e repair leaves the scratch
+    copy in place."""
+    o = case["od"].get(cls)
+    old_bases = (o[1] if isinstance(o[1], (tuple, list)) else ([o[1]] if o[1] else [])) if o and o[0] == "class" else []
+    return base not in old_bases
+
+
 def is_base_repointed(name, im):
+    return any(n == name for n, _ in im.get("repointed", []))
+
+
+def _is_base_repointed_old(name, im):
     """C16-e: the class kept its identity but its __bases__ were set to the base class object of the SCRATCH module
     instead of the (patched) base class of the module: issubclass(m.B, m.A) is False after the reload."""
     return name in im.get("repointed", [])
@@ -969,13 +1010,20 @@ def oracle_case(ctx, c, im):
         elif want == "kept":
             if got != "kept":
                 ctx.violation("identity_kept", c, "%s is %s although name, closure shape, slots and bases are unchanged" % (n, got))
+            elif im["via_old_refs"].get(n) != fresh["names"].get(n) and \
+                    classify_namespace_difference(n, im["via_old_refs"].get(n), fresh["names"].get(n), c, im):
+                ctx.known_hit(classify_namespace_difference(n, im["via_old_refs"].get(n), fresh["names"].get(n), c, im).split()[0],
+                              "a kept class / instance reaches a scratch copy of a same-module class (%r)" % n)
             elif im["via_old_refs"].get(n) != fresh["names"].get(n):
                 ctx.violation("behaves_as_new_source", c, {"name": n, "via_old_reference": im["via_old_refs"].get(n), "fresh_import": fresh["names"].get(n)})
         elif want == "f20":
             if got != "kept":
                 ctx.known_hit("F20", "a closure cell of %r holds a different plain value: the function is replaced, references captured earlier keep the old behaviour" % n)
-    for n in im.get("repointed", []):
-        ctx.violation("class_bases_identity", c, "class %r keeps its identity but its __bases__ point at the scratch module's base class: issubclass(m.%s, m.<base>) is False" % (n, n))
+    for n, b in im.get("repointed", []):
+        if is_gained_base_stale(n, b, c):
+            ctx.known_hit("C16-g", "class %r keeps its identity and gains the same-module base %r: __bases__ holds the scratch copy of it (issubclass(m.%s, m.%s) is False)" % (n, b, n, b))
+        else:
+            ctx.violation("class_bases_identity", c, "class %r keeps its identity but the retained base %r in its __bases__ is the scratch module's copy: issubclass(m.%s, m.%s) is False" % (n, b, n, b))
     # names
     if set(im["after"]["names"]) != set(fresh["names"]):
         ctx.violation("dict_shape", c, {"after_reload": sorted(im["after"]["names"]), "fresh_import": sorted(fresh["names"])})
@@ -988,7 +1036,7 @@ def oracle_case(ctx, c, im):
             continue          # one old object cannot become two different new ones: no claim
         a, b = im["after"]["names"][n], fresh["names"][n]
         if a != b:
-            why = classify_namespace_difference(n, a, b, c)
+            why = classify_namespace_difference(n, a, b, c, im)
             if why:
                 ctx.bump("oracle:namespace_difference:" + why)
                 ctx.known_hit(why.split()[0], "namespace differs from a fresh import (%s): %r" % (why, n))
@@ -996,8 +1044,25 @@ def oracle_case(ctx, c, im):
                 ctx.violation("namespace_equals_fresh_import", c, {"name": n, "after_reload": a, "fresh_import": b})
 
 
-def classify_namespace_difference(n, a, b, c):
+def classify_namespace_difference(n, a, b, c, im=None):
+    gained = {bn for cn, bn in (im or {}).get("repointed", []) if is_gained_base_stale(cn, bn, c)}
+    if gained:
+        txt = json.dumps(a)
+        for bn in gained:
+            txt = txt.replace("%s (NOT the class the module binds)" % bn, bn)
+        if json.loads(txt) == b:
+            return "C16-g gained same-module base is the scratch copy"
+    if is_new_object_of_scratch_class(a, b):
+        return "C16-h an object created by the new source refers to the scratch copy of a class that the module keeps"
     return None
+
+
+def is_new_object_of_scratch_class(a, b):
+    """C16-h: the only difference to the fresh import is that a class reached from the object (its type, a base, an
+    MRO entry) is not the class the module binds: objects created by the new source (new instances, replaced
+    subclasses) refer to the scratch classes, while livepatch keeps the old class objects in the module.  A KEPT class
+    whose RETAINED base is stale is reported separately as a class_bases_identity violation."""
+    return json.loads(json.dumps(a).replace(" (NOT the class the module binds)", "")) == b
 
 
 # ---------------------------------------------------------------------------------------------
@@ -1074,7 +1139,7 @@ def compare(ctx, cases, impl, index, model):
 
 
 def run(ctx):
-    n = int(os.environ.get("VERIF_C16_N", 160 if ctx.quick else 6000))
+    n = int(os.environ.get("VERIF_C16_N", 128 if ctx.quick else 6000))
     ctx.coverage["rule"] = (
         "one case = a generated (old, new) pair of module versions (plain / closure-made / decorated / aliased "
         "functions with defaults, docs and attributes; classes with methods, static and class methods, properties, "
